@@ -212,6 +212,10 @@ theorem nsr_onAck {t : Tcb} (fm : Bool) (s : Seg) (h : t.state ≠ .synReceived)
     · exact h
   · exact h
 
+theorem heard_state' (t : Tcb) (c : Cfg) (s : Seg) : (t.heard c s).state = t.state := by
+  unfold heard
+  split <;> rfl
+
 theorem nsr_handleEstablished {t : Tcb} (cfg : Cfg) (s : Seg) (h : t.state ≠ .synReceived) :
     (t.handleEstablished cfg s).1.state ≠ .synReceived := by
   unfold handleEstablished
@@ -834,12 +838,12 @@ theorem handleOnConnection (cfg : Cfg) (h : AccInv k) (fd : Nat) (l r : SockAddr
           split
           · exact (h.emit _ _ _).remove _
           dsimp only
-          have h1 : AccInv (k.setSock fd { so with tcb := some (t.handleEstablished cfg s).1 }) := by
+          have h1 : AccInv (k.setSock fd { so with tcb := some ((t.heard cfg s).handleEstablished cfg s).1 }) := by
             refine h.setSock hso rfl ?_
             intro hfd t' ht'
             simp only [Option.some.injEq] at ht'
             subst ht'
-            exact Tcb.nsr_handleEstablished cfg s (h.old_state hso ht hfd)
+            exact Tcb.nsr_handleEstablished cfg s (by rw [Tcb.heard_state']; exact h.old_state hso ht hfd)
           split
           · exact h1.emit _ _ _
           · exact h1
@@ -869,7 +873,7 @@ theorem closeChild (h : AccInv k) (child : Nat) : AccInv (k.closeChild child) :=
     · exact h.remove _
     · exact (h.emit _ _ _).remove _
 
-theorem onClose (h : AccInv k) (fd : Nat) : AccInv (k.onClose fd).1 := by
+theorem onClose (h : AccInv k) (fam : Bool) (fd : Nat) : AccInv (k.onClose fam fd).1 := by
   unfold Kernel.onClose
   split
   · exact h
@@ -890,10 +894,10 @@ theorem onClose (h : AccInv k) (fd : Nat) : AccInv (k.onClose fd).1 := by
         · exact h
       · exact h
 
-theorem close (h : AccInv k) (fd : Nat) : AccInv (k.close fd) := by
+theorem close (h : AccInv k) (fam : Bool) (fd : Nat) : AccInv (k.close fam fd) := by
   unfold Kernel.close
   dsimp only
-  have h1 := h.onClose fd
+  have h1 := h.onClose fam fd
   split
   · exact h1.remove _
   · exact h1
@@ -946,18 +950,21 @@ theorem persistProbe (cfg : Cfg) (h : AccInv k) (fd : Nat) : AccInv (k.persistPr
     · exact h
     · rename_i t ht
       dsimp only
-      split
-      · refine h.setSock hs rfl ?_
-        intro hfd t' ht'
-        simp only [Option.some.injEq] at ht'
-        subst ht'
-        exact h.old_state (t0 := t) hs ht hfd
-      · refine AccInv.emit ?_ _ _ _
+      have hset : ∀ t' : Tcb, t'.state = t.state → AccInv (k.setSock fd { s with tcb := some t' }) := by
+        intro t' hst
         refine h.setSock hs rfl ?_
-        intro hfd t' ht'
-        simp only [Option.some.injEq] at ht'
-        subst ht'
+        intro hfd t'' ht''
+        simp only [Option.some.injEq] at ht''
+        subst ht''
+        rw [hst]
         exact h.old_state (t0 := t) hs ht hfd
+      split
+      · exact hset _ rfl
+      · split
+        · refine AccInv.abortWith _ ?_ _ _
+          exact hset _ rfl
+        · refine AccInv.emit ?_ _ _ _
+          exact hset _ rfl
 
 theorem checkRetx0 (cfg : Cfg) (h : AccInv k) : AccInv (Kernel.checkRetx0 cfg k) := by
   unfold Kernel.checkRetx0
